@@ -44,3 +44,26 @@ Proof.
   destruct (lls_unique nx cols wl y beta beta' Hwf Hwn ltac:(congruence) ltac:(congruence) S1 T1) as [_ U].
   exact (U Hind).
 Qed.
+
+(* LOESS: the comparator's per-query reference (loess_design + fit_cond + polyF, Check.loess_query) is the
+   model's loess_at: same coefficients, same value *)
+Theorem loess_query_reference sx sy deg q n0 x cx cy w beta kap beta' v' :
+  loess_design sx sy q n0 x = FOk (cx, cy, w) ->
+  fit_cond (monomials deg cx) w cy = Some (beta, kap) ->
+  loess_at sx sy (Z.of_nat deg) q n0 x = FOk (beta', v') ->
+  Forall (Qle 0) w -> enough_points deg cx w ->
+  Forall2 Qeq beta beta' /\ exists e, polyF beta x = Some e /\ e == v'.
+Proof.
+  intros Hd Hf Ha Hw He. unfold loess_at in Ha. rewrite Hd in Ha.
+  destruct (polyreg cx cy (Some w) (Z.of_nat deg)) as [b| |] eqn:Er; try discriminate.
+  destruct (polyF b x) as [v|] eqn:Ev; [|discriminate]. inversion Ha; subst b v; clear Ha.
+  rewrite polyreg_is_lls_on_monomials in Er.
+  assert (B : Forall2 Qeq beta beta').
+  { apply (fit_cond_is_lls (length cx) cy (Some w) (monomials deg cx) beta kap beta'); auto.
+    - apply monomials_cols.
+    - now apply enough_points_indep. }
+  split; [exact B|].
+  destruct (polyF_some beta x) as [e He'].
+  { intro E. subst beta. inversion B; subst. discriminate Ev. }
+  exists e. split; [exact He'|]. rewrite (F_is_poly_eval _ _ _ He'), (F_is_poly_eval _ _ _ Ev). now apply poly_eval_ext.
+Qed.
